@@ -26,7 +26,7 @@ RULE = (
 
 TRUTHY = [1, True, "x", 2.5, [0], "OBJ", -1, (0,)]
 FALSY = [0, None, "", [], 0.0, False, ()]
-CLASSES = ["DirectedEdge", "UnDirectedEdge", "DSub", "USub", "OtherLink", "TwoEndedLink"]
+CLASSES = ["DirectedEdge", "UnDirectedEdge", "DSub", "USub", "OtherLink", "TwoEndedLink", "RenamedEdge", "PosOnlyEdge", "MixEdge", "FalsyEdge"]
 
 
 def floors(ctx):
